@@ -95,7 +95,8 @@ def gen_transfers(rng, big=False, ns=None, dll='j1939-21', lats=None, sizefn=siz
             horizon = max(horizon, t2 + ((n2 + 6) // 7) * 60000 + 3_000_000)
     app_timers(rng, script, ns)
     script.sort(key=lambda e: e['t'])
-    return dict(stacks=stacks, lat=lat, jit=[rng.choice([1, 1000])], script=script, horizon=horizon + 1000)
+    # (in a third of the scenarios the application uses its payload list again as soon as send_pgn has returned)
+    return dict(stacks=stacks, lat=lat, jit=[rng.choice([1, 1000])], script=script, horizon=horizon + 1000, reuse_buffers=rng.random() < 0.33)
 
 
 def app_timers(rng, script, ns):
@@ -149,4 +150,5 @@ def gen_transfers22(rng, big=False, ntr=None, capacity=False):
         horizon = max(horizon, t + dur)
     app_timers(rng, script, ns)
     script.sort(key=lambda e: e['t'])
-    return dict(stacks=stacks, lat=lat, jit=[rng.choice([1, 1000])], script=script, horizon=horizon + 1000)
+    # (in a third of the scenarios the application uses its payload list again as soon as send_pgn has returned)
+    return dict(stacks=stacks, lat=lat, jit=[rng.choice([1, 1000])], script=script, horizon=horizon + 1000, reuse_buffers=rng.random() < 0.33)
